@@ -31,8 +31,8 @@ def run(ctx):
     ctx.functions(tx.acyclic_unroll)
     for cid, spec in ctx.cases(all_cases(ctx)):
         A = Net.from_spec(spec)
-        if wellformed(A) or A.is_acyclic() or A.bbs:
-            ctx.rejected("family member outside the domain")
+        if wellformed(A) or A.is_acyclic() or A.bbs or any(n in A.preds[n] for n in A.nodes()):
+            ctx.rejected("family member outside the domain (acyclic, blackbox, or a self-loop: the property excludes self-loops)")
             continue
         ctx.sample({"case": cid, "circuit": spec})
         det = {"case": cid, "circuit": spec}
